@@ -66,6 +66,12 @@ func runKeepAlive(steps []kaStep, k, req int, unit time.Duration) string {
 	if err != nil {
 		return "INFRA connect: " + err.Error()
 	}
+	if len(steps) > 0 && steps[0].Prior == "rival" {
+		// another connection presents the same client identifier while this one is up, and stays
+		if _, err := r.rawConnect("c2", bAct{K: "kacl", Clean: true, Ka: 600}); err != nil {
+			return "INFRA rival connect: " + err.Error()
+		}
+	}
 	// a fed client is subscribed to a topic the witness connection publishes on every 0.3 K, for as long as the schedule runs
 	fed := len(steps) > 0 && steps[0].Fed
 	deaf := len(steps) > 0 && steps[0].Deaf
